@@ -137,6 +137,10 @@ func (h aggregatedBalancesResourceRepositoryHandler) ResolveFilter(_ common.Reso
 			return "metadata -> ? is not null", []any{value}, nil
 		} else {
 			match := common.MetadataRegex.FindAllStringSubmatch(property, 3)
+			if operator == queries.OperatorIn {
+				// membership: `metadata @> {"k": [...]}` would test containment of an array and never match
+				return "metadata ->> ? IN (?)", []any{match[0][1], bun.In(value)}, nil
+			}
 
 			return "metadata @> ?", []any{map[string]any{
 				match[0][1]: value,
